@@ -331,6 +331,16 @@ func harnessC02(cfg verifPubCfg) {
 	} else {
 		verifAssert(echo == 0, "no-echo-respected")
 	}
+	// the author's own marks jump to the message it published - whoever's session carried the request - in the
+	// live topic and, for an author who can read, in the store as well (C09: a mark moves when its user publishes)
+	if w.authorIn && t.cat != types.TopicCatSys {
+		apud := t.perUser[w.author]
+		verifAssert(apud.readID == o.ackSeq && apud.recvID == o.ackSeq, "authors-marks-move-to-the-published-message")
+		if (apud.modeWant & apud.modeGiven).IsReader() {
+			row := w.fx.store.subs[verifSubKey(t.name, w.author)]
+			verifAssert(row != nil && row.ReadSeqId == apud.readID && row.RecvSeqId == apud.recvID, "authors-stored-marks-equal-the-live-ones")
+		}
+	}
 	// push receipt: exactly the subscribers with read and presence, never removed users or channel readers
 	nPush := 0
 	for _, p := range o.pushes {
